@@ -91,7 +91,7 @@ ANGLE_STRATA = [
     ("below-switch", lambda r: SQRT_EPS * (1 - 10.0 ** r.uniform(-6, -0.05))),
     ("above-switch", lambda r: SQRT_EPS * (1 + 10.0 ** r.uniform(-6, 1))),
     ("cuberoot-switch", lambda r: EPS ** (1.0 / 3) * (1 + r.choice([-1, 1]) * 10.0 ** r.uniform(-6, -0.1))),
-    ("fourthroot-switch", lambda r: r.choice([EPS ** 0.25, EPS ** 0.125]) * (1 + r.choice([-1, 1]) * 10.0 ** r.uniform(-6, -0.1))),   # theta^2 = eps^(1/4): SGal3's E matrix switches at theta^8 < eps; theta = eps^(1/4) was its old switch
+    ("fourthroot-switch", lambda r: r.choice([EPS ** 0.25, EPS ** 0.125, EPS ** (1.0 / 6)]) * (1 + r.choice([-1, 1]) * 10.0 ** r.uniform(-6, -0.1))),   # theta^2 = eps^(1/4): SGal3's E matrix switches at theta^8 < eps; theta = eps^(1/4) was its old switch; eps^(1/6): SGal3 ljac block N2
     ("low", lambda r: 10.0 ** r.uniform(-6, -1)),
     ("generic", lambda r: r.uniform(0.1, 3.0)),
     ("near-pi", lambda r: math.pi - 10.0 ** r.uniform(-9, -2)),
